@@ -3,6 +3,7 @@ import TantivyModel.Model.Columnar.Column
 import TantivyModel.Model.Columnar.Writer
 import TantivyModel.Model.Columnar.CompactSpace
 import TantivyModel.Model.Columnar.DictMerge
+import TantivyModel.Model.Columnar.ColumnFile
 /-!
 Line protocol of the C08 model (fast fields / columnar).
 
@@ -26,6 +27,8 @@ Line protocol of the C08 model (fast fields / columnar).
   stack <inputs>                     -> rows of read(mergeStacked)
   colrange <lo> <hi> <s> <e> <rows>  -> Column::get_docids_for_value_range on the written column
   inrange <lo> <hi> <rows>           -> docsInRange
+  colfile <hex> <docs|all>           -> `card numDocs numVals;rows` open_column_u64 on a whole column file and
+                                        values_for_doc of the docs | corrupt
   dictshuffle <used> <order> <dicts> <inputs> -> `merged;rows` of merge_bytes_or_str_column: the merged
                                         dictionary and the rows of remapped ordinals (inputs: rows of old ordinals)
   dictmerge <used> <dicts>           -> `merged;map/map/..` of merge_dict_and_compute_term_ord_mapping: dicts
@@ -222,6 +225,21 @@ def handle : List String → String
       let m := mergeDictColumnAs (shuffledCard o ords) (usedFn u) o ins
       showNatList m.1 ++ ";" ++ showRows (read m.2.1 m.2.2)
     | _, _, _, _ => "bad-op"
+  | ["colfile", h, docs] =>
+    match bytesArg h with
+    | some bytes =>
+      match openColumnFile bytes with
+      | some f =>
+        let n := f.idx.numDocs f.vals.length
+        let card := match f.idx with | .full => 0 | .optional _ => 1 | .multivalued _ _ => 2
+        match (if docs == "all" then some (List.range n) else natList docs) with
+        | some ds =>
+          if ds.all (fun d => decide (d < n)) then
+            s!"{card} {n} {f.vals.length};{showRows (ds.map f.readRow)}"
+          else "bad-op"
+        | none => "bad-op"
+      | none => "corrupt"
+    | none => "bad-op"
   | ["inrange", lo, hi, rows] =>
     match lo.toNat?, hi.toNat?, parseRows rows with
     | some lo, some hi, some rows => showNatList (docsInRange id rows lo hi)
